@@ -177,3 +177,40 @@ package tpl
 //@   invariant forall j in 0..rangeindex+1 :: ret[j+1] == applyfn(fn, 0, next[j].([]any)[1])
 
 var _ = ListOp[any]
+
+//@ # ---- C27: the entry points never let a panic escape for a malformed grammar ----
+//@ # relocOK(err): the element conditions Relocate relies on (a *matcher.Error knows its file set; list elements are
+//@ # non-nil errors of the kinds tpl/cl and the parser put there). Any OTHER error type is allowed.
+//@ pred relocOK(err error) :=
+//@        (istype(err, *matcher.Error) ==> err.(*matcher.Error) != nil && err.(*matcher.Error).Fset != nil) &&
+//@        (istype(err, errors.List) ==> (forall k in 0..len(err.(errors.List)) :: istype(err.(errors.List)[k], *matcher.Error) &&
+//@             err.(errors.List)[k].(*matcher.Error) != nil && err.(errors.List)[k].(*matcher.Error).Fset != nil)) &&
+//@        (istype(err, scanner.ErrorList) ==> (forall k in 0..len(err.(scanner.ErrorList)) :: err.(scanner.ErrorList)[k] != nil)) &&
+//@        (istype(err, *scanner.Error) ==> err.(*scanner.Error) != nil)
+//@ func Relocate
+//@   requires relocOK(err)
+//@   assigns istype(err, errors.List) ? elems(err.(errors.List)) : nothing,
+//@           istype(err, scanner.ErrorList) || istype(err, *scanner.Error) ? allof(scanner.Error.Pos) : nothing
+//@   decreases b2i(istype(err, errors.List))
+//@   ensures [returns-an-error] err != nil ==> result != nil
+//@ loop Relocate#1
+//@   invariant forall k in rangeindex+1..len(e) :: istype(e[k], *matcher.Error) && e[k].(*matcher.Error) != nil && e[k].(*matcher.Error).Fset != nil
+//@ loop Relocate#2
+//@   invariant forall k in 0..len(e) :: e[k] != nil
+//@
+//@ func retProcs
+//@   requires len(params) % 2 == 0 && (forall k in 0..len(params) :: k % 2 == 0 ==> istype(params[k], string))
+//@   assigns nothing
+//@ loop retProcs#1
+//@   invariant 0 <= i && i <= n && i % 2 == 0 && n == len(params) && (cap(params) == 0 || true)
+//@   decreases n - i
+//@
+//@ func FromFile
+//@   requires conf != nil
+//@   assigns nothing
+//@   ensures [error-kinds] err != nil ==> relocOK(err)
+//@
+//@ func NewEx
+//@   requires len(params) % 2 == 0 && (forall k in 0..len(params) :: k % 2 == 0 ==> istype(params[k], string))
+//@ func New
+//@   requires len(params) % 2 == 0 && (forall k in 0..len(params) :: k % 2 == 0 ==> istype(params[k], string))
